@@ -168,22 +168,22 @@ Inductive scres := SOk (l : list T) | SRefused | SError.
 Definition cons_res (x : T) (r : scres) : scres :=
   match r with SOk l => SOk (x :: l) | _ => r end.
 
-Fixpoint sc_loop (apply : bool) (sc : sconf T) (sv : servo T) (i : nat) (vals : list (option T)) : scres :=
+Fixpoint sc_loop (apply : bool) (sc : sconf T) (cmd offs : list T) (i : nat) (vals : list (option T)) : scres :=
   match vals with
   | [] => SOk []
   | None :: vs =>
-      match nth_error (sv_cmd sv) i with
+      match nth_error cmd i with
       | None => SError
-      | Some c => cons_res c (sc_loop apply sc sv (S i) vs)
+      | Some c => cons_res c (sc_loop apply sc cmd offs (S i) vs)
       end
   | Some x :: vs =>
-      match (if apply then option_map (nadd ops x) (nth_error (sv_offs sv) i) else Some x) with
+      match (if apply then option_map (nadd ops x) (nth_error offs i) else Some x) with
       | None => SError
       | Some v =>
           if negb (nfinite ops v) then SRefused else
           match nth_error (sc_min sc) i, nth_error (sc_max sc) i with
           | Some lo, Some hi =>
-              if nlt ops v lo || nlt ops hi v then SRefused else cons_res v (sc_loop apply sc sv (S i) vs)
+              if nlt ops v lo || nlt ops hi v then SRefused else cons_res v (sc_loop apply sc cmd offs (S i) vs)
           | _, _ => SError
           end
       end
@@ -195,7 +195,7 @@ Definition commit_coords (sv : servo T) (l : list T) (fm : Z) : servo T :=
 (* returns the servo and: Some true / Some false (the bool result), None = IndexError *)
 Definition set_coords (sc : sconf T) (sv : servo T) (vals : list (option T)) (fm : Z) (apply : bool)
   : servo T * option bool :=
-  match sc_loop apply sc sv 0 vals with
+  match sc_loop apply sc (sv_cmd sv) (sv_offs sv) 0 vals with
   | SOk l => (commit_coords sv l fm, Some true)
   | SRefused => (sv, Some false)
   | SError => (sv, None)
@@ -242,14 +242,14 @@ Definition get_status (sc : sconf T) (e : env T) (sv : servo T) : servo T :=
   let now := e_now e in
   let mode := sv_mode sv in
   if mode =? 50 then
-    match e_spl e with
-    | [] => mk_servo mode (sv_future sv) (sv_coords sv) (sv_cmd sv) (sv_offs sv) now (sv_timer sv) (sv_alias sv)
-    | spl =>
-        let cs := move_all dt (sc_delta sc) (sv_coords sv) (clamp_all (sc_min sc) (sc_max sc) spl) in
-        (* in-place update of self.coords: an aliased cmd_coords follows *)
-        mk_servo mode (sv_future sv) cs (if sv_alias sv then cs else sv_cmd sv) (sv_offs sv) now
-                 (sv_timer sv) (sv_alias sv)
-    end
+    (* the code calls splev for all DOF axes or (no table yet / before the first point) not at all;
+       [e_spl] holds the DOF values in the first case *)
+    if (List.length (e_spl e) =? sc_dof sc)%nat && negb (sc_dof sc =? 0)%nat then
+      let cs := move_all dt (sc_delta sc) (sv_coords sv) (clamp_all (sc_min sc) (sc_max sc) (e_spl e)) in
+      (* in-place update of self.coords: an aliased cmd_coords follows *)
+      mk_servo mode (sv_future sv) cs (if sv_alias sv then cs else sv_cmd sv) (sv_offs sv) now
+               (sv_timer sv) (sv_alias sv)
+    else mk_servo mode (sv_future sv) (sv_coords sv) (sv_cmd sv) (sv_offs sv) now (sv_timer sv) (sv_alias sv)
   else if (mode =? 20) || (mode =? 30) then
     mk_servo mode (sv_future sv) (sv_coords sv) (sv_coords sv) (sv_offs sv) now (sv_timer sv) true
   else if negb (list_eq (sv_coords sv) (sv_cmd sv)) || negb (sv_future sv =? 0) then
@@ -300,23 +300,27 @@ Fixpoint render_sys (ps : list piece) (e : env T) (s : sys T) : option (list Z) 
       end
   end.
 
-(* ---- command handlers: result = new state and the reply without the tail, None = exception --- *)
-Definition hres := (sys T * option (list Z))%type.
-Definition bad (s : sys T) : hres := (s, Some (c_bad cf)).
+(* ---- command handlers: result = new state and the reply: BAD, GOOD (with the text that follows
+   'OUTPUT:GOOD,<plc time>'), or a Python exception ------------------------------------------------ *)
+Inductive hreply := RBad | RGood (body : list Z) | RExc.
+Definition hres := (sys T * hreply)%type.
+Definition bad (s : sys T) : hres := (s, RBad).
+Definition good_opt (o : option (list Z)) : hreply :=
+  match o with Some b => RGood b | None => RExc end.
 
 Definition h_status (s : sys T) (e : env T) (args : list (list Z)) : hres :=
   match args with
-  | [] => (s, option_map (app (good e)) (render_sys (c_sys_layout cf) e s))
+  | [] => (s, good_opt (render_sys (c_sys_layout cf) e s))
   | [sid] =>
       match find_servo sid 0 (c_servos cf) with
       | None => bad s
       | Some (i, sc) =>
           match nth_error (s_servos s) i with
-          | None => (s, None)
+          | None => (s, RExc)
           | Some sv =>
               let sv' := get_status sc e sv in
               (set_servo s i sv',
-               option_map (app (good e)) (render_servo (sc_layout sc) (sv_mode sv) sv' (e_draws e)))
+               good_opt (render_servo (sc_layout sc) (sv_mode sv) sv' (e_draws e)))
           end
       end
   | _ => bad s
@@ -346,7 +350,7 @@ Definition h_setup (s : sys T) (e : env T) (args : list (list Z)) : hres :=
       | None => bad s
       | Some r =>
           match setup_loop (c_servos cf) (tr_rows r) (s_servos s) with
-          | None => (s, None)
+          | None => (s, RExc)
           | Some svs =>
               let fire := match tr_cap r with
                           | Some p => negb (p =? 0) && negb (s_gcap s =? p)
@@ -358,7 +362,7 @@ Definition h_setup (s : sys T) (e : env T) (args : list (list Z)) : hres :=
                                       | None => s_cover s
                                       end
                          else s_cover s in
-              (mk_sys (s_msg s) (tr_id r) gc cov (Some (e_now e)) svs, Some (good e))
+              (mk_sys (s_msg s) (tr_id r) gc cov (Some (e_now e)) svs, RGood [])
           end
       end
   | _ => bad s
@@ -381,23 +385,23 @@ Definition h_stow (s : sys T) (e : env T) (args : list (list Z)) : hres :=
               | Some (i, sc) =>
                   (* a servo name wins over the literal GREGORIAN_CAP only when they differ;
                      the code tests `servo_id == 'GREGORIAN_CAP'` first *)
-                  if is_cap then (s, None) else
+                  if is_cap then (s, RExc) else
                   match nth_error (s_servos s) i with
-                  | None => (s, None)
+                  | None => (s, RExc)
                   | Some sv =>
                       let sv1 := cancel_set_mode sv 0 in
                       let sv2 := mk_servo (sv_mode sv1) (sv_future sv1) (sv_coords sv1) (sv_cmd sv1)
                                           (sv_offs sv1) (sv_last sv1)
                                           (Some (e_tick e + c_timer cf, 20)) (sv_alias sv1) in
-                      (set_last (set_servo s i sv2) (e_now e), Some (good e))
+                      (set_last (set_servo s i sv2) (e_now e), RGood [])
                   end
               | None =>
                   if (p <? 0) || (4 <? p) then bad s else
-                  if s_gcap s =? p then (set_last s (e_now e), Some (good e)) else
+                  if s_gcap s =? p then (set_last s (e_now e), RGood []) else
                   if (s_gcap s <=? 1) || (p =? 1)
                   then (mk_sys (s_msg s) (s_conf s) 0 (Some (e_tick e + c_timer cf, p)) (Some (e_now e))
-                               (s_servos s), Some (good e))
-                  else (mk_sys (s_msg s) (s_conf s) p None (Some (e_now e)) (s_servos s), Some (good e))
+                               (s_servos s), RGood [])
+                  else (mk_sys (s_msg s) (s_conf s) p None (Some (e_now e)) (s_servos s), RGood [])
               end
           end
       end
@@ -411,8 +415,8 @@ Definition h_stop (s : sys T) (e : env T) (args : list (list Z)) : hres :=
       | None => bad s
       | Some (i, _) =>
           match nth_error (s_servos s) i with
-          | None => (s, None)
-          | Some sv => (set_last (set_servo s i (cancel_set_mode sv 30)) (e_now e), Some (good e))
+          | None => (s, RExc)
+          | Some sv => (set_last (set_servo s i (cancel_set_mode sv 30)) (e_now e), RGood [])
           end
       end
   | _ => bad s
@@ -439,17 +443,17 @@ Definition h_preset (s : sys T) (e : env T) (args : list (list Z)) : hres :=
           | None => bad s
           | Some xs =>
               match nth_error (s_servos s) i with
-              | None => (s, None)
+              | None => (s, RExc)
               | Some sv =>
                   (* fix 18: set_coords on a copy first; a refusal returns before any side effect *)
                   match set_coords sc sv (map Some xs) 40 true with
-                  | (_, None) => (s, None)
+                  | (_, None) => (s, RExc)
                   | (_, Some false) => bad s
                   | (sv1, Some true) =>
                       let sv2 := cancel_set_mode sv1 0 in
                       match set_coords sc sv2 (map Some xs) 40 true with
-                      | (sv3, Some _) => (set_last (set_servo s i sv3) (e_now e), Some (good e))
-                      | (_, None) => (s, None)
+                      | (sv3, Some _) => (set_last (set_servo s i sv3) (e_now e), RGood [])
+                      | (_, None) => (s, RExc)
                       end
                   end
               end
@@ -476,14 +480,14 @@ Definition h_offset (s : sys T) (e : env T) (args : list (list Z)) : hres :=
           | None => bad s
           | Some xs =>
               match nth_error (s_servos s) i with
-              | None => (s, None)
+              | None => (s, RExc)
               | Some sv =>
                   match set_offsets (sv_offs sv) xs with
-                  | None => (s, None)
+                  | None => (s, RExc)
                   | Some offs' =>
                       let sv' := mk_servo (sv_mode sv) (sv_future sv) (sv_coords sv) (sv_cmd sv) offs'
                                           (sv_last sv) (sv_timer sv) (sv_alias sv) in
-                      (set_last (set_servo s i sv') (e_now e), Some (good e))
+                      (set_last (set_servo s i sv') (e_now e), RGood [])
                   end
               end
           end
@@ -524,19 +528,19 @@ Definition h_programtrack (s : sys T) (e : env T) (args : list (list Z)) : hres 
           match rest with
           | tid :: pid :: st :: toks =>
               match nth_error (s_servos s) i with
-              | None => (s, None)
+              | None => (s, RExc)
               | Some sv =>
                   match pyint orc tid, pyint orc pid with
                   | Some _, Some _ =>
                       match pt_coords toks (sv_offs sv) with
-                      | None => (s, None)
+                      | None => (s, RExc)
                       | Some None => bad s
                       | Some (Some _) =>
                           (* trajectory bookkeeping (start time, point ids, spline): oracle *)
                           if e_pt_ok e
                           then let sv' := mk_servo 50 (sv_future sv) (sv_coords sv) (sv_cmd sv) (sv_offs sv)
                                                    (sv_last sv) (sv_timer sv) (sv_alias sv) in
-                               (set_last (set_servo s i sv') (e_now e), Some (good e))
+                               (set_last (set_servo s i sv') (e_now e), RGood [])
                           else bad s
                       end
                   | _, _ => bad s
@@ -571,8 +575,9 @@ Definition execute (s : sys T) (e : env T) (msg : list Z) : sys T * outcome :=
           | None => (s, OExc)                               (* AttributeError *)
           | Some f =>
               match f s e args with
-              | (s', Some r) => (s', OReply (r ++ crlf))
-              | (s', None) => (s', OExc)
+              | (s', RBad) => (s', OReply (c_bad cf ++ crlf))
+              | (s', RGood body) => (s', OReply (good e ++ body ++ crlf))
+              | (s', RExc) => (s', OExc)
               end
           end
       end
@@ -638,3 +643,10 @@ Fixpoint run (w : world) (evs : list event) : world * list outcome :=
   end.
 
 End Model.
+
+Arguments SOk {T}. Arguments SRefused {T}. Arguments SError {T}.
+Arguments EvEnv {T}. Arguments EvByte {T}. Arguments EvRefresh {T}.
+Arguments scres : clear implicits.
+Arguments event : clear implicits.
+Arguments world : clear implicits.
+Arguments hres : clear implicits.
